@@ -275,3 +275,58 @@ theorem movingAverage_eq_def (A : Arith V F) (n : Nat) (hn : 0 < n) (xs : List (
     cases xs[j]? <;> cases slideSum A n (xs.map (·.v)) i <;> rfl
 
 end Influx.Reducers.Lemmas
+
+namespace Influx.Reducers.Lemmas
+
+/-! ### integers: the sliding sum is the window's sum -/
+
+def isum (l : List Int) : Int := l.foldl (· + ·) 0
+
+theorem foldl_add_shift (l : List Int) (a : Int) : l.foldl (· + ·) a = a + isum l := by
+  unfold isum
+  induction l generalizing a with
+  | nil => simp
+  | cons x xs ih => simp only [List.foldl_cons]; rw [ih (a + x), ih (0 + x)]; omega
+
+theorem isum_cons (x : Int) (l : List Int) : isum (x :: l) = x + isum l := by
+  unfold isum; simp only [List.foldl_cons]; rw [foldl_add_shift]; simp [isum]
+
+theorem isum_take_succ (l : List Int) (n : Nat) (x : Int) (h : l[n]? = some x) :
+    isum (l.take (n + 1)) = isum (l.take n) + x := by
+  induction l generalizing n with
+  | nil => simp at h
+  | cons a l ih =>
+    cases n with
+    | zero => simp at h; subst h; simp [isum]
+    | succ n =>
+      simp at h
+      simp only [List.take_succ_cons, isum_cons, ih n h]; omega
+
+/-- with exact integer arithmetic the maintained sliding sum IS the sum of the window
+    `vs[i .. i+n)` -/
+theorem slideSum_int {F : Type} (fo : FOps F) (eqvF : F → F → Bool) (hF : ∀ x, eqvF x x = true)
+    (n : Nat) (vs : List Int) : ∀ i, i + n ≤ vs.length →
+      slideSum (intArith fo eqvF hF) n vs i = some (isum ((vs.drop i).take n)) := by
+  intro i
+  induction i with
+  | zero => intro _; simp [slideSum, isum, intArith, intOps]
+  | succ i ih =>
+    intro hle
+    have hi : i < vs.length := by omega
+    have hin : i + n < vs.length := by omega
+    simp only [slideSum, ih (by omega), List.getElem?_eq_getElem hi, List.getElem?_eq_getElem hin]
+    congr 1
+    show isum ((vs.drop i).take n) - vs[i] + vs[i + n] = isum ((vs.drop (i + 1)).take n)
+    have hd : vs.drop i = vs[i] :: vs.drop (i + 1) := List.drop_eq_getElem_cons hi
+    cases n with
+    | zero => simp [isum]; omega
+    | succ n =>
+      rw [hd, List.take_succ_cons, isum_cons]
+      have hx : (vs.drop (i + 1))[n]? = some vs[i + (n + 1)] := by
+        rw [List.getElem?_drop]
+        have : i + 1 + n = i + (n + 1) := by omega
+        rw [this, List.getElem?_eq_getElem hin]
+      rw [isum_take_succ _ n _ hx]
+      omega
+
+end Influx.Reducers.Lemmas
